@@ -4,6 +4,7 @@ import (
 	"fmt"
 
 	"sigs.k8s.io/structured-merge-diff/v6/fieldpath"
+	"sigs.k8s.io/structured-merge-diff/v6/schema"
 	"sigs.k8s.io/structured-merge-diff/v6/typed"
 	"sigs.k8s.io/structured-merge-diff/v6/value"
 )
@@ -259,6 +260,18 @@ func genC09(e *emitter, tier string) {
 	for h := 0; h < n; h++ {
 		runNestingC09(e, multi)
 	}
+	// typed operations on a freshly parsed schema, repeated after other typed calls that walk
+	// through other references to the same named types (overrides, atomic references) and
+	// after failing validations: the schema's lazily built state must not leak
+	nt := 40
+	if tier == "thorough" {
+		nt = 1500
+	}
+	nt /= shardCount
+	for k := 0; k < nt; k++ {
+		sameT, detail := typedRepeat(e)
+		e.line(fmt.Sprintf("(c09.typed %s %s)", sexpBool(sameT), quote(detail)))
+	}
 	// value equality and ordering with both allocators
 	vals := valueUniverse()
 	okAlloc := true
@@ -336,7 +349,11 @@ func repeatStep(e *emitter, multi *histConf, st *hstate, live *typed.TypedValue,
 // passes of prune), each step repeated
 func runNestingC09(e *emitter, multi *histConf) {
 	st := newState(multi, "v1")
-	for _, sp := range nestingSteps(e) {
+	steps := nestingSteps(e)
+	if e.rng.Intn(6) == 0 {
+		steps = hollowSteps(e, e.rng.Intn(2) == 0)
+	}
+	for _, sp := range steps {
 		var vObj interface{}
 		var tv *typed.TypedValue
 		if sp.apply {
@@ -356,6 +373,84 @@ func runNestingC09(e *emitter, multi *histConf) {
 		}
 		st = repeatStep(e, multi, st, live, sp.apply, sp.mgr, sp.ver, vObj, tv)
 	}
+}
+
+// one round of typed operations rendered as text
+func typedRender(p *typed.Parser, tr schema.TypeRef, a, b interface{}) string {
+	out := ""
+	func() {
+		defer func() {
+			if r := recover(); r != nil {
+				out += " panic"
+			}
+		}()
+		ta, err := typed.AsTyped(value.NewValueInterface(a), &p.Schema, tr, typed.AllowDuplicates)
+		if err != nil {
+			out += " invalid-a"
+			return
+		}
+		tb, err := typed.AsTyped(value.NewValueInterface(b), &p.Schema, tr, typed.AllowDuplicates)
+		if err != nil {
+			out += " invalid-b"
+			return
+		}
+		if fs, err := ta.ToFieldSet(); err == nil {
+			j, _ := fs.ToJSON()
+			out += " fs=" + string(j)
+		} else {
+			out += " fs-err"
+		}
+		if c, err := ta.Compare(tb); err == nil {
+			out += " cmp=" + c.String()
+		} else {
+			out += " cmp-err"
+		}
+		if m, err := ta.Merge(tb); err == nil {
+			j, _ := value.ToJSON(m.AsValue())
+			out += " merge=" + string(j)
+		} else {
+			out += " merge-err"
+		}
+	}()
+	return out
+}
+
+func typedRepeat(e *emitter) (bool, string) {
+	fresh := func() *typed.Parser {
+		p, err := typed.NewParser(typed.YAMLObject(kitchenYAML))
+		if err != nil {
+			panic(err)
+		}
+		return p
+	}
+	menu := schemaMenu()[0]
+	sc := &menu.parser.Schema
+	root := menu.roots[0]
+	a := genValue(e.rng, sc, root, genMode{}, 4)
+	b := mutate(e.rng, sc, root, a, genMode{}, 4)
+	p := fresh()
+	first := typedRender(p, root, a, b)
+	// other calls on the same parser: other roots (atomic overrides of the same named
+	// types), other values, invalid values
+	for i := 0; i < 3+e.rng.Intn(4); i++ {
+		r := menu.roots[e.rng.Intn(len(menu.roots))]
+		x := genValue(e.rng, sc, r, genMode{degenerate: e.rng.Intn(2) == 0, dups: e.rng.Intn(3) == 0}, 4)
+		y := mutate(e.rng, sc, r, x, genMode{}, 3)
+		if e.rng.Intn(3) == 0 {
+			y = corrupt(e.rng, y)
+		}
+		typedRender(p, r, x, y)
+		typedRender(p, root, x, y) // the wrong root for x: fails validation midway
+	}
+	second := typedRender(p, root, a, b)
+	alone := typedRender(fresh(), root, a, b)
+	if first != second {
+		return false, "the same typed calls gave another result after other calls on the same parser"
+	}
+	if first != alone {
+		return false, "a freshly parsed schema gives another result"
+	}
+	return true, ""
 }
 
 func sortedManagers(m fieldpath.ManagedFields) []string {
